@@ -100,5 +100,239 @@ inductive Act (c : Cfg) (t : Nat) (th : Thread) : Shared → Thread → List Ev 
       Act c t th { c.sh with maxBucket := (c.sh.post.map (fun e => assign e.1)).foldl max 0 }
         (finish th .compacted) []
 
+theorem step_act (t : Nat) (c c' : Cfg) (h : step t c = some c') :
+    ∃ th sh' th' evs, c.threads[t]? = some th ∧ Act c t th sh' th' evs ∧
+      c' = { sh := sh', threads := c.threads.set t th', hist := evs ++ c.hist } := by
+  unfold step at h
+  split at h
+  · cases h
+  · rename_i th hth
+    refine ⟨th, ?_⟩
+    split at h
+    · cases h
+    · -- idle, insert
+      rename_i d k sp rest hpc hprog
+      split at h
+      · cases h
+      · rename_i hg
+        have hg' : noCompactor c = true := by simpa using hg
+        split at h
+        · rename_i p hp
+          split at h
+          · rename_i hu
+            simp only [Bool.and_eq_true, Bool.not_eq_true', List.contains_eq_mem, decide_eq_false_iff_not] at hu
+            cases h
+            exact ⟨_, _, _, hth, Act.insErr d k sp rest p hpc hprog hg' hp hu.1 hu.2, rfl⟩
+          · rename_i hu
+            split at h
+            · rename_i hd
+              cases h
+              exact ⟨_, _, _, hth, Act.insHas d k sp rest p hpc hprog hg' hp (by simpa using hd), rfl⟩
+            · rename_i hd
+              have hd' : d ∉ p.ids := by simpa using hd
+              have hu' : c.sh.unique = false := by
+                cases hun : c.sh.unique with
+                | false => rfl
+                | true => exfalso; apply hu; simp [hun, hd']
+              cases h
+              exact ⟨_, _, _, hth, Act.insApp d k sp rest p hpc hprog hg' hp hu' hd', rfl⟩
+        · rename_i hp
+          cases h
+          exact ⟨_, _, _, hth, Act.insNew d k sp rest hpc hprog hg' hp, rfl⟩
+    · -- ins1
+      rename_i isNew size target d k sp rest hpc hprog
+      simp only at h
+      split at h
+      · rename_i hc
+        simp only [Bool.and_eq_true, Bool.not_eq_true'] at hc
+        obtain ⟨p, hp⟩ := Option.isSome_iff_exists.1 hc.1.2
+        cases h
+        exact ⟨_, _, _, hth, Act.ins1Add isNew size target d k sp rest p hpc hprog hc.1.1 hp, rfl⟩
+      · rename_i hc
+        cases h
+        refine ⟨_, _, _, hth, Act.ins1Skip isNew size target d k sp rest hpc hprog ?_, rfl⟩
+        cases hn : isNew with
+        | false => exact Or.inl rfl
+        | true =>
+          cases hp : pget c.sh.post k with
+          | none => exact Or.inr (Or.inl rfl)
+          | some p =>
+            refine Or.inr (Or.inr ?_)
+            cases hb : c.sh.btree.contains k with
+            | true => simpa using hb
+            | false =>
+              have : k ∉ c.sh.btree := by simpa using hb
+              exfalso; apply hc; simp [hn, hp, this]
+    · -- ins2
+      rename_i size target d k sp rest hpc hprog
+      split at h
+      · rename_i hs
+        have : size = false := by simpa using hs
+        subst this
+        cases h
+        exact ⟨_, _, _, hth, Act.ins2NoSize target d k sp rest hpc hprog, rfl⟩
+      · rename_i hs
+        have : size = true := by simpa using hs
+        subst this
+        split at h
+        · rename_i hsp
+          have : sp = false := by simpa using hsp
+          subst this
+          cases h
+          exact ⟨_, _, _, hth, Act.ins2List target d k rest hpc hprog, rfl⟩
+        · rename_i hsp
+          have : sp = true := by simpa using hsp
+          subst this
+          simp only at h
+          split at h
+          · rename_i p hp
+            cases h
+            exact ⟨_, _, _, hth, Act.ins2SpillSome target d k rest p hpc hprog hp, rfl⟩
+          · rename_i hp
+            cases h
+            exact ⟨_, _, _, hth, Act.ins2SpillNone target d k rest hpc hprog hp, rfl⟩
+    · -- ins3
+      rename_i size nb d k sp rest hpc hprog
+      split at h
+      · rename_i n
+        cases h
+        exact ⟨_, _, _, hth, Act.ins3Some size n d k sp rest hpc hprog, rfl⟩
+      · cases h
+        exact ⟨_, _, _, hth, Act.ins3None size d k sp rest hpc hprog, rfl⟩
+    · -- ins4
+      rename_i size d k sp rest hpc hprog
+      cases h
+      exact ⟨_, _, _, hth, Act.ins4 size d k sp rest hpc hprog, rfl⟩
+    · -- idle, remove
+      rename_i d k rest hpc hprog
+      split at h
+      · cases h
+      · rename_i hg
+        have hg' : noCompactor c = true := by simpa using hg
+        split at h
+        · rename_i p hp
+          split at h
+          · rename_i hd
+            simp only at h
+            cases h
+            exact ⟨_, _, _, hth, Act.remHit d k rest p hpc hprog hg' hp (by simpa using hd), rfl⟩
+          · rename_i hd
+            cases h
+            exact ⟨_, _, _, hth, Act.remMiss d k rest p hpc hprog hg' hp (by simpa using hd), rfl⟩
+        · rename_i hp
+          cases h
+          exact ⟨_, _, _, hth, Act.remAbsent d k rest hpc hprog hg' hp, rfl⟩
+    · -- rem1
+      rename_i removed empty b d k rest hpc hprog
+      split at h
+      · rename_i hr
+        have : removed = false := by simpa using hr
+        subst this
+        cases h
+        exact ⟨_, _, _, hth, Act.rem1No empty b d k rest hpc hprog, rfl⟩
+      · rename_i hr
+        have : removed = true := by simpa using hr
+        subst this
+        split at h
+        · rename_i he
+          subst he
+          split at h
+          · rename_i p hp
+            split at h
+            · rename_i hemp
+              cases h
+              exact ⟨_, _, _, hth, Act.rem1Erase b d k rest p hpc hprog hp (by simpa using hemp), rfl⟩
+            · rename_i hemp
+              cases h
+              exact ⟨_, _, _, hth, Act.rem1Keep b d k rest hpc hprog (Or.inr ⟨p, hp, by simpa using hemp⟩), rfl⟩
+          · rename_i hp
+            cases h
+            exact ⟨_, _, _, hth, Act.rem1Keep b d k rest hpc hprog (Or.inl hp), rfl⟩
+        · rename_i he
+          have : empty = false := by simpa using he
+          subst this
+          cases h
+          exact ⟨_, _, _, hth, Act.rem1Skip b d k rest hpc hprog, rfl⟩
+    · -- rem2
+      rename_i er b d k rest hpc hprog
+      simp only at h
+      split at h
+      · rename_i hc
+        simp only [Bool.and_eq_true, Option.isNone_iff_eq_none] at hc
+        obtain ⟨h1, h2⟩ := hc
+        subst h1
+        cases h
+        exact ⟨_, _, _, hth, Act.rem2Drop b d k rest hpc hprog h2, rfl⟩
+      · rename_i hc
+        cases h
+        refine ⟨_, _, _, hth, Act.rem2Keep er b d k rest hpc hprog ?_, rfl⟩
+        cases he : er with
+        | false => exact Or.inl rfl
+        | true =>
+          cases hp : pget c.sh.post k with
+          | none => exfalso; apply hc; simp [he, hp]
+          | some p => exact Or.inr rfl
+    · -- rem3
+      rename_i er b d k rest hpc hprog
+      cases hp : pget c.sh.post k with
+      | none =>
+        simp only [hp] at h
+        cases he : er with
+        | true =>
+          subst he
+          simp only [Bool.and_self, if_true] at h
+          cases h
+          exact ⟨_, _, _, hth, Act.rem3Drop b d k rest hpc hprog (Or.inl hp), rfl⟩
+        | false =>
+          subst he
+          simp only [Bool.false_and, Bool.false_eq_true, if_false] at h
+          cases h
+          exact ⟨_, _, _, hth, Act.rem3Keep false b d k rest hpc hprog, rfl⟩
+      | some p =>
+        simp only [hp] at h
+        by_cases hc : (er && !(p.bucket == b)) = true
+        · simp only [hc, if_true] at h
+          simp only [Bool.and_eq_true, Bool.not_eq_true', beq_eq_false_iff_ne, ne_eq] at hc
+          obtain ⟨h1, h2⟩ := hc
+          subst h1
+          cases h
+          exact ⟨_, _, _, hth, Act.rem3Drop b d k rest hpc hprog (Or.inr ⟨p, hp, h2⟩), rfl⟩
+        · simp only [hc] at h
+          cases h
+          exact ⟨_, _, _, hth, Act.rem3Keep er b d k rest hpc hprog, rfl⟩
+    · -- idle, compact
+      rename_i skip assign rest hpc hprog
+      split at h
+      · cases h
+      · rename_i hg
+        have hg' : allIdle c = true := by simpa using hg
+        split at h
+        · rename_i hs
+          subst hs
+          cases h
+          exact ⟨_, _, _, hth, Act.cmpSkip assign rest hpc hprog hg', rfl⟩
+        · rename_i hs
+          have : skip = false := by simpa using hs
+          subst this
+          cases h
+          exact ⟨_, _, _, hth, Act.cmpStart assign rest hpc hprog hg', rfl⟩
+    · -- cmp1
+      rename_i skip assign rest hpc hprog
+      split at h
+      · rename_i he
+        cases h
+        exact ⟨_, _, _, hth, Act.cmp1Empty skip assign rest hpc hprog he, rfl⟩
+      · cases h
+        exact ⟨_, _, _, hth, Act.cmp1Clear skip assign rest hpc hprog, rfl⟩
+    · -- cmp2
+      rename_i skip assign rest hpc hprog
+      cases h
+      exact ⟨_, _, _, hth, Act.cmp2 skip assign rest hpc hprog, rfl⟩
+    · -- cmp3
+      rename_i skip assign rest hpc hprog
+      cases h
+      exact ⟨_, _, _, hth, Act.cmp3 skip assign rest hpc hprog, rfl⟩
+    · cases h
+
 end BTreeConc
 end AndaVerif
